@@ -37,24 +37,27 @@ var (
 )
 
 type (
-	FileInfo = os.FileInfo
-	FileMode = os.FileMode
-	DirEntry = os.DirEntry
+	FileInfo  = os.FileInfo
+	FileMode  = os.FileMode
+	DirEntry  = os.DirEntry
 	PathError = os.PathError
 )
 
 func base(p string) string { return filepath.Base(p) }
 
-func Getenv(k string) string                 { return os.Getenv(k) }
-func LookupEnv(k string) (string, bool)      { return os.LookupEnv(k) }
-func Getwd() (string, error)                 { return os.Getwd() }
-func IsNotExist(err error) bool              { return os.IsNotExist(err) }
-func IsExist(err error) bool                 { return os.IsExist(err) }
-func Exit(code int)                          { os.Exit(code) }
-func TempDir() string                        { return os.TempDir() }
-func Stat(name string) (FileInfo, error)     { gate.Yield("StatPath", base(name)); return os.Stat(name) }
-func Lstat(name string) (FileInfo, error)    { gate.Yield("StatPath", base(name)); return os.Lstat(name) }
-func ReadDir(name string) ([]DirEntry, error) { gate.Yield("ReadDir", base(name)); return os.ReadDir(name) }
+func Getenv(k string) string              { return os.Getenv(k) }
+func LookupEnv(k string) (string, bool)   { return os.LookupEnv(k) }
+func Getwd() (string, error)              { return os.Getwd() }
+func IsNotExist(err error) bool           { return os.IsNotExist(err) }
+func IsExist(err error) bool              { return os.IsExist(err) }
+func Exit(code int)                       { os.Exit(code) }
+func TempDir() string                     { return os.TempDir() }
+func Stat(name string) (FileInfo, error)  { gate.Yield("StatPath", base(name)); return os.Stat(name) }
+func Lstat(name string) (FileInfo, error) { gate.Yield("StatPath", base(name)); return os.Lstat(name) }
+func ReadDir(name string) ([]DirEntry, error) {
+	gate.Yield("ReadDir", base(name))
+	return os.ReadDir(name)
+}
 func Remove(name string) error               { gate.Yield("Remove", base(name)); return os.Remove(name) }
 func RemoveAll(name string) error            { gate.Yield("Remove", base(name)); return os.RemoveAll(name) }
 func Rename(a, b string) error               { gate.Yield("Rename", base(a)+">"+base(b)); return os.Rename(a, b) }
@@ -156,11 +159,11 @@ func (f *File) Seek(off int64, whence int) (int64, error) {
 	f.fresh = true
 	return f.f.Seek(off, whence)
 }
-func (f *File) Truncate(n int64) error  { gate.Yield("Truncate", f.name); return f.f.Truncate(n) }
-func (f *File) Close() error            { gate.Yield("Close", f.name); return f.f.Close() }
-func (f *File) Sync() error             { gate.Yield("Sync", f.name); return f.f.Sync() }
-func (f *File) Stat() (FileInfo, error) { return f.f.Stat() }
-func (f *File) Chmod(m FileMode) error  { return f.f.Chmod(m) }
+func (f *File) Truncate(n int64) error            { gate.Yield("Truncate", f.name); return f.f.Truncate(n) }
+func (f *File) Close() error                      { gate.Yield("Close", f.name); return f.f.Close() }
+func (f *File) Sync() error                       { gate.Yield("Sync", f.name); return f.f.Sync() }
+func (f *File) Stat() (FileInfo, error)           { return f.f.Stat() }
+func (f *File) Chmod(m FileMode) error            { return f.f.Chmod(m) }
 func (f *File) ReadDir(n int) ([]DirEntry, error) { return f.f.ReadDir(n) }
 
 var _ fs.FileInfo = FileInfo(nil)
